@@ -162,6 +162,43 @@ Proof.
 Qed.
 Print Assumptions heyawake_roundtrip_given_rooms.
 
+(* Unconditional forms, from C15's Codec/RoomsProofs.v (roundtrip_all, rooms_roundtrip_any_order):
+   lits / norinori: for every partition rs of every h x w board (h, w >= 1) into connected rooms,
+   given in ANY order of rooms and cells, if the body serializes then the URL is
+   prefix name/w/h/body and the decoder returns (h, w, rs') for the canonical listing rs' of the
+   same partition.  heyawake: the same when the rooms are given in canonical order (clues stay
+   with their rooms); for heyawake rooms in arbitrary order see heyawake_roundtrip_given_rooms. *)
+Theorem rooms_codecs_roundtrip :
+  forall sw dw, (sw = serialize_lits_w /\ dw = deserialize_lits_w) \/ (sw = serialize_norinori_w /\ dw = deserialize_norinori_w) ->
+  forall h w rs rs' body, 1 <= h -> 1 <= w ->
+    valid_rooms h w rs -> canonical_rooms h w rs' -> rooms_equiv rs rs' ->
+    serialize_problem_cu no_custom (sw_comb sw) (rooms_to_pv rs) h w = Ok body ->
+    run_ser_sized no_custom sw h w (rooms_to_pv rs) = Ok (make_url default_prefix (sw_puzzle sw) h w body) /\
+    run_de no_custom dw (make_url default_prefix (sw_puzzle sw) h w body) = Ok (Some (VTup [VInt h; VInt w; rooms_to_pv rs'])).
+Proof.
+  intros sw dw Hsw h w rs rs' body Hh Hw Hv Hcan Heq Hser.
+  pose proof generated_wrappers_consistent as (_ & _ & _ & _ & _ & _ & _ & H8 & H9).
+  destruct Hsw as [[-> ->]|[-> ->]].
+  - exact (rooms_url_roundtrip serialize_lits_w deserialize_lits_w false false h w rs rs' body eq_refl H8 Hh Hw Hv Hcan Heq Hser).
+  - exact (rooms_url_roundtrip serialize_norinori_w deserialize_norinori_w false false h w rs rs' body eq_refl H9 Hh Hw Hv Hcan Heq Hser).
+Qed.
+Print Assumptions rooms_codecs_roundtrip.
+
+Theorem heyawake_roundtrip_canonical :
+  forall h w rs vs body, 1 <= h -> 1 <= w -> canonical_rooms h w rs -> length vs = length rs ->
+    serialize_problem_cu no_custom HEYAWAKE_COMBINATOR (VTup [rooms_to_pv rs; VList vs]) h w = Ok body ->
+    run_ser_sized no_custom serialize_heyawake_w h w (VTup [rooms_to_pv rs; VList vs])
+      = Ok (make_url default_prefix (sw_puzzle serialize_heyawake_w) h w body) /\
+    run_de no_custom deserialize_heyawake_w (make_url default_prefix (sw_puzzle serialize_heyawake_w) h w body)
+      = Ok (Some (VTup [VInt h; VInt w; VTup [rooms_to_pv rs; VList vs]])).
+Proof.
+  intros h w rs vs body Hh Hw Hcan Hlen Hser.
+  pose proof generated_wrappers_consistent as (_ & _ & _ & _ & _ & _ & H7 & _).
+  exact (valued_rooms_url_roundtrip serialize_heyawake_w deserialize_heyawake_w _ true false h w rs vs body eq_refl H7
+           ltac:(vm_compute; reflexivity) eq_refl eq_refl Hh Hw Hcan Hlen Hser).
+Qed.
+Print Assumptions heyawake_roundtrip_canonical.
+
 (* ------------------------------------------------------------------ yajilin (Combinator subclass YajilinClue) *)
 (* C15's general theorem does not cover Combinator subclasses.  The body-level round trip
    of yajilin's term is the statement below (not proved; tied and searched on every run:
